@@ -1,3 +1,2 @@
 package main
-func ruleC03R4(r *Run) {}
-func ruleC03R5(r *Run) {}
+func ruleC15R3(r *Run) {}
